@@ -108,6 +108,10 @@ def make_spy(base, ctl):
                 r = getattr(e, "reason", None)
                 if r and len(r) > 1 and isinstance(r[1], Bare):
                     raise _errors.PathIOError() from None
+                if r and len(r) > 1 and isinstance(r[1], _errors.PathIOError):
+                    # the wrapped back end already reported its failure: hand that report on as it is (wrapping it a second
+                    # time would hide the original exception, e.g. its errno, from the server)
+                    raise r[1] from None
                 raise
         return outer
 
